@@ -11,4 +11,7 @@ MUTANTS=[
  ('opt-level-flags-not-in-key', '\tif len(c.crossCompile.CCFLAGS) > 0 {\n', '\tif false {\n'),
  ('revert-sibling-files-digested', '\t\t\tif sibling := filepath.Join(cDir, e.Name()); e.Type().IsRegular() && !seen[sibling] {', '\t\t\tif sibling := filepath.Join(cDir, e.Name()); false && !seen[sibling] {'),
  ('revert-subdirectory-headers-digested', '\t\tif e.IsDir() {\n\t\t\tfiles = appendIncludable(files, seen, path, false)\n\t\t} else if', '\t\tif e.IsDir() {\n\t\t} else if'),
+ # reverts of F27 (one of its three sites) and F28
+ ('revert-archive-copy-synced', '\tif err := tmp.Sync(); err != nil {\n\t\treturn err\n\t}\n', ''),
+ ('revert-c-object-own-name', '\tobjTmp, err := os.CreateTemp("", filepath.Base(baseName)+"-*.o")\n\tcheck(err)\n\tobjFile := objTmp.Name()\n\tobjTmp.Close()\n', '\tvar err error\n\tobjFile := baseName + ".o"\n', 0, 'internal/build/build.go'),
 ]
